@@ -59,7 +59,9 @@ class EngineLineCropper(object):
         coords = np.dot(coords, np.linalg.inv(R))
         if self.poly:
             if coords.shape[0] > 2:
-                line_interpf = np.poly1d(np.polyfit(coords[:,0], coords[:,1], self.poly))
+                # n points determine a polynomial of degree n - 1 at most; a higher degree is fitted arbitrarily (RankWarning)
+                degree = min(self.poly, coords.shape[0] - 1)
+                line_interpf = np.poly1d(np.polyfit(coords[:,0], coords[:,1], degree))
             else:
                 line_interpf = np.poly1d(np.polyfit(coords[:,0], coords[:,1], 1))
         else:
